@@ -142,6 +142,26 @@ def search(skip_known=True):
         if bad:
             return {"confirmed": True, "input": {"source": text, "cell": cell}, "actual": bad, "expected": "component / binding accessibility per the type's own defaults",
                     "how": f"real parser; type cell (component default, binding default, component attr, binding attr, type attr) = {cell}"}
+    bad = constructor_cases()
+    if bad:
+        return bad
+    return None
+
+
+def constructor_cases():
+    """a type and the generic interface of the same name (its constructor) are one identifier: after correlation both carry the accessibility given to the name"""
+    for default, how, want in (("private", "public :: vec", "public"), ("", "private :: vec", "private"), ("", "type_attr_private", "private"), ("private", "", "private"), ("", "", "public")):
+        tattr = ", private" if how == "type_attr_private" else ""
+        stmt = "" if how in ("", "type_attr_private") else f"  {how}\n"
+        text = (f"module m\n  implicit none\n" + (f"  {default}\n" if default else "") + stmt + f"  type{tattr} :: vec\n    real :: x\n  end type vec\n"
+                "  interface vec\n    module procedure make_vec\n  end interface vec\ncontains\n  function make_vec(a) result(v)\n    real :: a\n    type(vec) :: v\n    v%x = a\n  end function make_vec\nend module m\n")
+        proj = realrun.build_project({"src/m.f90": text}, display=["public", "private", "protected"])
+        m = proj.modules[0]
+        t = m.types[0]
+        intr = [i for i in m.interfaces if i.name.lower() == "vec"][0]
+        if t.permission != want or intr.permission != want:
+            return {"confirmed": True, "input": {"source": text}, "actual": {"type vec": t.permission, "interface vec": intr.permission}, "expected": f"both {want}",
+                    "how": "real pipeline (parse + correlate); the accessibility of a name applies to the type and to the generic interface of that name"}
     return None
 
 
